@@ -209,6 +209,13 @@ def _make_public_contract(fn, name):
                     except Exception:
                         pass
                     floor = 1e-10 * amax
+                    if name == "angular_momentum_integral":
+                        # r x p about the coordinate origin: the natural scale of an element is |R| sqrt(2T), so the
+                        # rounding noise of a vanishing element grows with the distance of the shells from the origin
+                        try:
+                            floor += 1e-10 * np.sqrt(3.0 * amax) * max(float(np.abs(sh.coord).max()) for sh in _ARGS[0])
+                        except Exception:
+                            pass
                     if name in SYMMETRIC:
                         d = float(np.abs(result - np.swapaxes(result, 0, 1)).max())
                         STATE.count("M-sym")
